@@ -138,6 +138,7 @@ type Outcome struct {
 	Panic   bool
 	Trail   []string // decisions taken, for diagnostics
 	Notes   []string // notes recorded by the rule's OnCall hook along this path
+	Store   []AV     // the path-local store at the return (cells that KPtr results point into)
 }
 
 // HasNote reports whether the path recorded the note.
@@ -162,8 +163,14 @@ type PEval struct {
 	MaxDepth  int
 	MaxPaths  int
 	Inline    func(*ssa.Function) bool // which callees to explore (default: library functions)
+	InlineIf  func(callee *ssa.Function, args []AV) bool // optional additional condition on the abstract arguments
+	NoInlineInHavoc bool // after a loop was re-entered, treat library calls as opaque
 	OnCall    func(ev *PEval, call *ssa.Call, callee *ssa.Function, args []AV) (AV, bool)
 	AssumeNonNil func(path string) bool // symbolic objects assumed non-nil
+	MaxSteps  int  // budget of instructions evaluated over all paths (default 2,000,000)
+	steps     int
+	InitStore []AV // initial contents of the path-local store (cells that root arguments may point to)
+	Trap      func(in ssa.Instruction, what string, trail []string) // called when an instruction must panic on this path (nil dereference, index into empty slice, write to nil map, explicit panic)
 	Watch     func(in ssa.Instruction, q IvSet) // called for every instruction reached, with the feasible q
 	LoopOK    bool // when true, loops are tolerated: on re-entry the path continues in havoc mode (no refinement, unknown phis) and is cut with unknown results on the third visit
 	Truncated bool // set when a path was cut
@@ -177,19 +184,53 @@ type PEval struct {
 }
 
 type pstate struct {
+	havocLoop map[*ssa.BasicBlock]bool // blocks of the loop whose re-entry switched havoc mode on
+	dead  bool     // the path hit a trap (nil dereference etc.) and ends here
 	notes []string // rule-defined path notes (see PEval.Note)
 	havoc bool // a loop was re-entered on this path: branches are followed both ways unrefined, phis are unknown
 	q     IvSet
-	env   map[ssa.Value]AV
+	env   *envNode
 	store []AV
 	trail []string
 }
 
-func (s *pstate) fork() *pstate {
-	n := &pstate{notes: append([]string(nil), s.notes...), havoc: s.havoc, q: s.q, env: make(map[ssa.Value]AV, len(s.env)+8), store: append([]AV(nil), s.store...), trail: append([]string(nil), s.trail...)}
-	for k, v := range s.env {
-		n.env[k] = v
+// envNode is a persistent map: a chain of small overlays. Forking a state is O(1).
+type envNode struct {
+	m      map[ssa.Value]AV
+	parent *envNode
+	depth  int
+}
+
+func (e *envNode) get(v ssa.Value) (AV, bool) {
+	for n := e; n != nil; n = n.parent {
+		if a, ok := n.m[v]; ok {
+			return a, true
+		}
 	}
+	return AV{}, false
+}
+
+func (s *pstate) set(v ssa.Value, a AV) { s.env.m[v] = a }
+
+func (s *pstate) fork() *pstate {
+	// freeze the current overlay: both continuations get a fresh child
+	parent := s.env
+	if parent.depth > 64 {
+		// flatten long chains
+		flat := map[ssa.Value]AV{}
+		var chain []*envNode
+		for n := parent; n != nil; n = n.parent {
+			chain = append(chain, n)
+		}
+		for i := len(chain) - 1; i >= 0; i-- {
+			for k, v := range chain[i].m {
+				flat[k] = v
+			}
+		}
+		parent = &envNode{m: flat}
+	}
+	s.env = &envNode{m: map[ssa.Value]AV{}, parent: parent, depth: parent.depth + 1}
+	n := &pstate{notes: append([]string(nil), s.notes...), havoc: s.havoc, havocLoop: s.havocLoop, q: s.q, env: &envNode{m: map[ssa.Value]AV{}, parent: parent, depth: parent.depth + 1}, store: append([]AV(nil), s.store...), trail: append([]string(nil), s.trail...)}
 	return n
 }
 
@@ -220,11 +261,15 @@ func (ev *PEval) Run(fn *ssa.Function, args []AV) ([]Outcome, error) {
 	ev.tables = map[*ssa.Global]*ConstTable{}
 	ev.Visited = map[*ssa.Function]bool{}
 	ev.paths = 0
+	ev.steps = 0
+	if ev.MaxSteps == 0 {
+		ev.MaxSteps = 2000000
+	}
 	ev.Err = nil
 	var outs []Outcome
-	s := &pstate{q: ev.Domain, env: map[ssa.Value]AV{}}
+	s := &pstate{q: ev.Domain, env: &envNode{m: map[ssa.Value]AV{}}, store: append([]AV(nil), ev.InitStore...)}
 	ev.call(s, fn, args, 0, func(s *pstate, res []AV, pan bool) {
-		outs = append(outs, Outcome{Q: s.q, Results: res, Panic: pan, Trail: s.trail, Notes: s.notes})
+		outs = append(outs, Outcome{Q: s.q, Results: res, Panic: pan, Trail: s.trail, Notes: s.notes, Store: s.store})
 	})
 	if ev.Err != nil {
 		return nil, ev.Err
@@ -278,7 +323,7 @@ func (ev *PEval) call(s *pstate, fn *ssa.Function, args []AV, depth int, k cont)
 		if ev.Select != nil && ev.Select(ev, p, []AV{a, {K: KInt, I: int64(depth)}}) {
 			a = AV{K: KQ}
 		}
-		s.env[p] = a
+		s.env.m[p] = a
 	}
 	ev.block(s, fr, fn.Blocks[0], nil, 0, k)
 }
@@ -299,26 +344,37 @@ func (ev *PEval) block(s *pstate, fr *frame, b *ssa.BasicBlock, pred *ssa.BasicB
 			ev.fail("loop at %s in %s (region extraction needs loop-free flow in q)", b.Comment, FnKey(fr.fn))
 			return
 		}
-		if fr.visited[b] == 1 {
+		if fr.visited[b] == 1 && !s.havoc {
 			s.havoc = true
+			s.havocLoop = naturalLoop(b)
+		} else if s.havoc && s.havocLoop != nil && !s.havocLoop[b] && b.Parent() == loopParent(s.havocLoop) {
+			// control left the loop that caused havoc mode: branch conditions are exact again
+			// (values that depended on loop-carried phis stay unknown)
+			s.havoc = false
+			s.havocLoop = nil
 		}
 		fr.visited[b]++
 		defer func() { fr.visited[b]-- }()
 	}
 	for idx := start; idx < len(b.Instrs); idx++ {
 		in := b.Instrs[idx]
+		ev.steps++
+		if ev.steps > ev.MaxSteps {
+			ev.fail("evaluation budget of %d steps exceeded in %s", ev.MaxSteps, FnKey(fr.fn))
+			return
+		}
 		if ev.Watch != nil {
 			ev.Watch(in, s.q)
 		}
 		switch x := in.(type) {
 		case *ssa.Phi:
 			if s.havoc {
-				s.env[x] = AV{}
+				s.env.m[x] = AV{}
 				continue
 			}
 			for i, p := range b.Preds {
 				if p == pred {
-					s.env[x] = ev.val(s, x.Edges[i])
+					s.env.m[x] = ev.val(s, x.Edges[i])
 				}
 			}
 		case *ssa.If:
@@ -374,6 +430,9 @@ func (ev *PEval) block(s *pstate, fr *frame, b *ssa.BasicBlock, pred *ssa.BasicB
 			ev.emit(s, res, k)
 			return
 		case *ssa.Panic:
+			if ev.Trap != nil {
+				ev.Trap(x, "explicit panic", s.trail)
+			}
 			ev.paths++
 			k(s, nil, true)
 			return
@@ -389,13 +448,31 @@ func (ev *PEval) block(s *pstate, fr *frame, b *ssa.BasicBlock, pred *ssa.BasicB
 			a := ev.val(s, x.Addr)
 			if a.K == KPtr {
 				s.store[*a.Cell] = storeSel(s.store[*a.Cell], a.Sel, ev.val(s, x.Val))
+			} else if a.K == KNil && ev.Trap != nil {
+				ev.trap(s, x, "store through nil pointer")
+			}
+		case *ssa.MapUpdate:
+			if ev.Trap != nil && ev.val(s, x.Map).K == KNil {
+				ev.trap(s, x, "assignment to entry in nil map")
 			}
 		case ssa.Value:
-			s.env[x] = ev.instr(s, fr, x)
+			s.env.m[x] = ev.instr(s, fr, x)
 		default:
-			// Defer, Go, RunDefers, MapUpdate, Send, DebugRef: no abstract effect tracked
+			// Defer, Go, RunDefers, Send, DebugRef: no abstract effect tracked
+		}
+		if s.dead {
+			ev.paths++
+			k(s, nil, true)
+			return
 		}
 	}
+}
+
+func (ev *PEval) trap(s *pstate, in ssa.Instruction, what string) {
+	if ev.Trap != nil {
+		ev.Trap(in, what, s.trail)
+	}
+	s.dead = true
 }
 
 // emit delivers function results, forking on symbolic comparison results so that every outcome
@@ -441,11 +518,11 @@ func (ev *PEval) split(s *pstate, cond ssa.Value) (*pstate, *pstate, bool) {
 		if ov.K == KUnk {
 			ts, fs := s.fork(), s.fork()
 			if op == "==" {
-				ts.env[other] = AV{K: KNil}
-				fs.env[other] = AV{K: KNonNil}
+				ts.env.m[other] = AV{K: KNil}
+				fs.env.m[other] = AV{K: KNonNil}
 			} else {
-				ts.env[other] = AV{K: KNonNil}
-				fs.env[other] = AV{K: KNil}
+				ts.env.m[other] = AV{K: KNonNil}
+				fs.env.m[other] = AV{K: KNil}
 			}
 			return ts, fs, true
 		}
@@ -521,7 +598,7 @@ func flipOp(op string) string {
 
 // val returns the abstract value of an operand.
 func (ev *PEval) val(s *pstate, v ssa.Value) AV {
-	if a, ok := s.env[v]; ok {
+	if a, ok := s.env.get(v); ok {
 		return a
 	}
 	switch x := v.(type) {
@@ -643,7 +720,7 @@ func (ev *PEval) doLookup(s *pstate, fr *frame, b, pred *ssa.BasicBlock, idx int
 	m := ev.val(s, x.X)
 	key := ev.val(s, x.Index)
 	if m.K != KMap {
-		s.env[x] = AV{}
+		s.env.m[x] = AV{}
 		return false
 	}
 	t := m.Tab
@@ -661,7 +738,7 @@ func (ev *PEval) doLookup(s *pstate, fr *frame, b, pred *ssa.BasicBlock, idx int
 	}
 	switch key.K {
 	case KInt:
-		s.env[x] = mk(t.Has(key.I), key.I)
+		s.env.m[x] = mk(t.Has(key.I), key.I)
 		return false
 	case KQ:
 		// split q over the table's keys
@@ -672,7 +749,7 @@ func (ev *PEval) doLookup(s *pstate, fr *frame, b, pred *ssa.BasicBlock, idx int
 			}
 			ns := s.fork()
 			ns.q = qq
-			ns.env[x] = mk(true, kk)
+			ns.env.m[x] = mk(true, kk)
 			ns.trail = append(ns.trail, fmt.Sprintf("%s[%d]", t.Name, kk))
 			ev.block(ns, fr, b, pred, idx+1, k)
 		}
@@ -684,13 +761,13 @@ func (ev *PEval) doLookup(s *pstate, fr *frame, b, pred *ssa.BasicBlock, idx int
 		if !rest.Empty() {
 			ns := s.fork()
 			ns.q = rest
-			ns.env[x] = mk(false, 0)
+			ns.env.m[x] = mk(false, 0)
 			ns.trail = append(ns.trail, "∉"+t.Name)
 			ev.block(ns, fr, b, pred, idx+1, k)
 		}
 		return true
 	}
-	s.env[x] = AV{}
+	s.env.m[x] = AV{}
 	return false
 }
 
@@ -704,12 +781,22 @@ func (ev *PEval) doCall(s *pstate, fr *frame, b, pred *ssa.BasicBlock, idx int, 
 		args = append(args, ev.val(s, a))
 	}
 	if ev.Select != nil && ev.Select(ev, x, args) {
-		s.env[x] = AV{K: KQ}
+		s.env.m[x] = AV{K: KQ}
 		return false
 	}
 	if bi, ok := x.Call.Value.(*ssa.Builtin); ok {
-		s.env[x] = ev.builtin(bi, args)
+		s.env.m[x] = ev.builtin(bi, args)
 		return false
+	}
+	if ev.Trap != nil {
+		if x.Call.IsInvoke() && len(args) > 0 && args[0].K == KNil {
+			ev.trap(s, x, "method call on nil interface value")
+			return false
+		}
+		if !x.Call.IsInvoke() && x.Call.StaticCallee() == nil && ev.val(s, x.Call.Value).K == KNil {
+			ev.trap(s, x, "call of nil function value")
+			return false
+		}
 	}
 	callee := x.Call.StaticCallee()
 	if callee == nil {
@@ -720,16 +807,16 @@ func (ev *PEval) doCall(s *pstate, fr *frame, b, pred *ssa.BasicBlock, idx int, 
 	if ev.OnCall != nil {
 		ev.cur = s
 		if av, ok := ev.OnCall(ev, x, callee, args); ok {
-			s.env[x] = av
+			s.env.m[x] = av
 			return false
 		}
 	}
 	if callee != nil {
 		if av, ok := knownExternal(callee, x, args); ok {
-			s.env[x] = av
+			s.env.m[x] = av
 			return false
 		}
-		if ev.Inline(callee) && fr.depth < ev.MaxDepth {
+		if ev.Inline(callee) && fr.depth < ev.MaxDepth && (ev.InlineIf == nil || ev.InlineIf(callee, args)) && !(ev.NoInlineInHavoc && s.havoc) {
 			// closures: bind free variables as unknown
 			ev.call(s, callee, args, fr.depth+1, func(ns *pstate, res []AV, pan bool) {
 				if pan {
@@ -744,7 +831,7 @@ func (ev *PEval) doCall(s *pstate, fr *frame, b, pred *ssa.BasicBlock, idx int, 
 				default:
 					rv = AV{K: KTuple, Elems: res}
 				}
-				ns.env[x] = rv
+				ns.env.m[x] = rv
 				// continue the caller block; visited bookkeeping of the caller frame is
 				// path-local because exploration is depth-first.
 				ev.block(ns, fr, b, pred, idx+1, k)
@@ -752,7 +839,7 @@ func (ev *PEval) doCall(s *pstate, fr *frame, b, pred *ssa.BasicBlock, idx int, 
 			return true
 		}
 	}
-	s.env[x] = unknownResult(x.Type())
+	s.env.m[x] = unknownResult(x.Type())
 	return false
 }
 
@@ -831,6 +918,9 @@ func (ev *PEval) instr(s *pstate, fr *frame, v ssa.Value) AV {
 		switch x.Op {
 		case token.MUL:
 			switch a.K {
+			case KNil:
+				ev.trap(s, x, "nil pointer dereference")
+				return AV{}
 			case KPtr:
 				return loadSel(s.store[*a.Cell], a.Sel)
 			case KObj:
@@ -883,7 +973,14 @@ func (ev *PEval) instr(s *pstate, fr *frame, v ssa.Value) AV {
 	case *ssa.TypeAssert:
 		a := ev.val(s, x.X)
 		if x.CommaOk {
+			if a.K == KNil {
+				return AV{K: KTuple, Elems: []AV{zeroAV(x.AssertedType), {K: KBool, B: false}}}
+			}
 			return AV{K: KTuple, Elems: []AV{a, {}}}
+		}
+		if a.K == KNil && ev.Trap != nil {
+			ev.trap(s, x, "type assertion on nil interface")
+			return AV{}
 		}
 		return a
 	case *ssa.Extract:
@@ -905,6 +1002,10 @@ func (ev *PEval) instr(s *pstate, fr *frame, v ssa.Value) AV {
 		return AV{}
 	case *ssa.FieldAddr:
 		a := ev.val(s, x.X)
+		if a.K == KNil {
+			ev.trap(s, x, "field access through nil pointer")
+			return AV{}
+		}
 		if a.K == KObj {
 			return AV{K: KObj, Path: a.Path + "." + fieldName(x.X.Type(), x.Field)}
 		}
@@ -932,8 +1033,37 @@ func (ev *PEval) instr(s *pstate, fr *frame, v ssa.Value) AV {
 		}
 		return AV{K: KNonNil}
 	case *ssa.Slice:
+		a := ev.val(s, x.X)
+		if a.K == KNil {
+			// slicing a nil slice is fine only for [0:0]; through a nil array pointer it always panics
+			if _, isPtr := x.X.Type().Underlying().(*types.Pointer); isPtr {
+				ev.trap(s, x, "slice of nil array pointer")
+				return AV{}
+			}
+			bad := false
+			for _, b := range []ssa.Value{x.Low, x.High, x.Max} {
+				if b == nil {
+					continue
+				}
+				bv := ev.val(s, b)
+				if bv.K == KInt && bv.I != 0 {
+					bad = true
+				}
+			}
+			if bad {
+				ev.trap(s, x, "slice bounds out of range on an empty slice")
+				return AV{}
+			}
+			return AV{K: KNil}
+		}
 		return AV{}
-	case *ssa.Index, *ssa.IndexAddr:
+	case *ssa.IndexAddr:
+		a := ev.val(s, x.X)
+		if a.K == KNil {
+			ev.trap(s, x, "index into nil/empty slice or nil array pointer")
+		}
+		return AV{}
+	case *ssa.Index:
 		return AV{}
 	}
 	return AV{}
@@ -1256,6 +1386,52 @@ func PWAt(pw []PWPiece, v int64) []string {
 		if v >= p.Iv.Lo && v <= p.Iv.Hi {
 			return p.Vals
 		}
+	}
+	return nil
+}
+
+// ZeroAV exposes the abstract zero value of a type.
+func ZeroAV(t types.Type) AV { return zeroAV(t) }
+
+// PtrToCell returns an abstract pointer to cell i of the initial store.
+func PtrToCell(i int) AV { return AV{K: KPtr, Cell: &i} }
+
+// LoadCell dereferences an abstract pointer against a store snapshot.
+func LoadCell(store []AV, p AV) (AV, bool) {
+	if p.K != KPtr || p.Cell == nil || *p.Cell >= len(store) {
+		return AV{}, false
+	}
+	return loadSel(store[*p.Cell], p.Sel), true
+}
+
+// naturalLoop returns the blocks of the natural loop(s) with header h.
+func naturalLoop(h *ssa.BasicBlock) map[*ssa.BasicBlock]bool {
+	loop := map[*ssa.BasicBlock]bool{h: true}
+	var work []*ssa.BasicBlock
+	for _, p := range h.Preds {
+		if h.Dominates(p) {
+			if !loop[p] {
+				loop[p] = true
+				work = append(work, p)
+			}
+		}
+	}
+	for len(work) > 0 {
+		b := work[len(work)-1]
+		work = work[:len(work)-1]
+		for _, p := range b.Preds {
+			if !loop[p] {
+				loop[p] = true
+				work = append(work, p)
+			}
+		}
+	}
+	return loop
+}
+
+func loopParent(l map[*ssa.BasicBlock]bool) *ssa.Function {
+	for b := range l {
+		return b.Parent()
 	}
 	return nil
 }
